@@ -23,16 +23,6 @@ void verif_reach(void) { }
 void vf_native_assert(int c, const char *m) { if (!c) { printf("REPLAY: %s FAILED\n", m); fflush(stdout); exit(3); } }
 void vf_native_assume(int c) { if (!c) { printf("REPLAY: assumption violated\n"); exit(4); } }
 void vf_native_reach(void) { }
-#ifdef VF_CNATIVE
-void _ZSt20__throw_length_errorPKc(void *s) { printf("REPLAY: throw_length_error\n"); exit(6); }
-void _ZSt17__throw_bad_allocv(void) { printf("REPLAY: throw_bad_alloc\n"); exit(6); }
-void _ZSt28__throw_bad_array_new_lengthv(void) { printf("REPLAY: throw_bad_array_new_length\n"); exit(6); }
-void _ZSt24__throw_out_of_range_fmtPKcz(void *s, ...) { printf("REPLAY: throw_out_of_range\n"); exit(6); }
-void _ZSt25__throw_bad_function_callv(void) { printf("REPLAY: bad_function_call\n"); exit(6); }
-void _ZNSt8ios_base4InitC1Ev(void *p) { (void)p; }
-void _ZNSt8ios_base4InitD1Ev(void *p) { (void)p; }
-char __dso_handle_vf; char _ZSt7nothrow;
-#endif
 int main(int argc, char **argv) {
   if (argc < 2) { fprintf(stderr, "usage: %s <harness_fn> [inputs-file]\n", argv[0]); return 2; }
   void (*fn)(void) = (void (*)(void))dlsym(RTLD_DEFAULT, argv[1]);
